@@ -248,3 +248,690 @@ Proof.
     + left. rewrite SV, SD. auto.
     + right. exists f0, f1. rewrite SV, SD. auto.
 Qed.
+
+(* ---------- the primitive transitions are good ---------- *)
+Lemma filter_true : forall (A : Type) (l : list A), filter (fun _ => true) l = l.
+Proof. induction l; simpl; congruence. Qed.
+
+Lemma goodNI_same_copies : forall cs s' p,
+    wf s' -> (forall pd t, copy s' pd t = copy (vs cs) pd t) ->
+    goodNI cs (mkc s' (filter p (dirty cs))).
+Proof.
+  intros cs s' p W HC [_ DIc].
+  destruct (good_shrink cs (mkc s' (filter p (dirty cs))) p DIc) as [D K]; simpl; auto.
+  - intros pd t img Hin. apply filter_In in Hin. destruct Hin as [Hin _].
+    destruct DIc as [_ E]. destruct (E pd t img Hin) as (f & C & _). rewrite HC. congruence.
+  - split; [split; [exact W|exact D]|exact K].
+Qed.
+
+Lemma goodNI_bump : forall cs t, goodNI cs (with_vs cs (bump_stamp (vs cs) t)).
+Proof.
+  intros cs t I. pose proof (goodNI_same_copies cs (bump_stamp (vs cs) t) (fun _ => true)) as G.
+  rewrite filter_true in G. apply G; auto.
+  - apply wf_bump_stamp. apply I.
+  - intros. apply copy_bump.
+Qed.
+
+Lemma goodNI_sync : forall cs pd t, goodNI cs (d_clear cs pd t).
+Proof.
+  intros cs pd t I. unfold d_clear. apply goodNI_same_copies; auto. apply I.
+Qed.
+
+(* a visible state whose copies are those of cs or gone, with the dirty list pruned accordingly *)
+Lemma goodNI_prune : forall cs s',
+    wf s' -> (forall pd t, copy s' pd t = copy (vs cs) pd t \/ copy s' pd t = None) ->
+    goodNI cs (prune (with_vs cs s')).
+Proof.
+  intros cs s' W HC [_ DIc].
+  destruct (good_shrink cs (prune (with_vs cs s'))
+                        (fun e => match copy s' (fst (fst e)) (snd (fst e)) with Some _ => true | None => false end)
+                        DIc) as [D K]; simpl; auto.
+  - intros pd t img Hin. apply filter_In in Hin. destruct Hin as [_ Hc]. simpl in Hc.
+    destruct (copy s' pd t); [discriminate|discriminate].
+  - split; [split; [exact W|exact D]|exact K].
+Qed.
+
+Lemma goodNI_rm : forall cs t, goodNI cs (fst (x_remove_tract cs t)).
+Proof.
+  intros cs t I. unfold x_remove_tract.
+  pose proof (wf_remove_tract (vs cs) t (proj1 I)) as W.
+  pose proof (remove_tract_effect (vs cs) t) as Eff.
+  destruct (remove_tract (vs cs) t) as [s' e]. simpl in *.
+  apply goodNI_prune; auto. intros pd t0.
+  destruct Eff as [->|(pd0 & f & _ & _ & _ & _ & E)]; [now left|].
+  rewrite E. destruct ((pd =? pd0) && (t0 =? t)); auto.
+Qed.
+
+Lemma goodNI_upd : forall cs pd t f f',
+    copy (vs cs) pd t = Some f -> ver_le f f' ->
+    goodNI cs (with_vs (d_mark cs pd t) (put_file (vs cs) pd t f')).
+Proof.
+  intros cs pd t f f' C L [W DIc].
+  destruct (good_upd cs pd t f f' DIc C L) as [D K]. split; [split; [|exact D]|exact K].
+  simpl. apply wf_put_file_existing; [congruence|exact W].
+Qed.
+
+(* ---------- disk calls ---------- *)
+Lemma x_open_keeps : forall cs f pd t, fst (fst (x_open cs f pd t false)) = cs.
+Proof.
+  intros. unfold x_open. destruct (tick f) as [h f']. destruct h; [reflexivity|].
+  now destruct (copy (vs cs) pd t).
+Qed.
+
+Lemma x_open_existing_keeps : forall cs f t, fst (fst (fst (x_open_existing cs f t))) = cs.
+Proof.
+  intros. unfold x_open_existing. destruct (lookup (vs cs) t) as [[slot st]|]; [|reflexivity].
+  destruct (disk_of (vs cs) slot) as [pd|]; [|reflexivity].
+  pose proof (x_open_keeps cs f pd t) as H. destruct (x_open cs f pd t false) as [[c f1] e]. exact H.
+Qed.
+
+Lemma good_x_close : forall cs f pd t, goodNI cs (fst (fst (x_close cs f pd t))).
+Proof.
+  intros. unfold x_close. destruct (tick f) as [h f']. destruct h; simpl; [apply goodNI_refl|apply goodNI_sync].
+Qed.
+
+Lemma good_x_close_if : forall cs f opd t e, goodNI cs (fst (fst (x_close_if cs f opd t e))).
+Proof.
+  intros. unfold x_close_if. destruct opd as [pd|]; [|apply goodNI_refl].
+  pose proof (good_x_close cs f pd t) as G. destruct (x_close cs f pd t) as [[c f1] ce]. exact G.
+Qed.
+
+Lemma good_x_write : forall cs f pd t d off, goodNI cs (fst (fst (x_write cs f pd t d off))).
+Proof.
+  intros. unfold x_write. destruct (tick f) as [h f'].
+  destruct (copy (vs cs) pd t) as [fl|] eqn:C; [|apply goodNI_refl].
+  assert (L : forall x, ver_le fl (mkfile (f_ver fl) x)).
+  { intros x v Hv. exists v. split; [exact Hv|lia]. }
+  destruct h; [destruct (rle_len d / 2 =? 0); [apply goodNI_refl|]|]; simpl; eapply goodNI_upd; eauto.
+Qed.
+
+Lemma good_x_setxattr : forall cs f pd t v,
+    (forall fl c, copy (vs cs) pd t = Some fl -> f_ver fl = Some c -> (c <= v)%Z) ->
+    goodNI cs (fst (fst (x_setxattr cs f pd t v))).
+Proof.
+  intros cs f pd t v H. unfold x_setxattr. destruct (tick f) as [h f']. destruct h; [apply goodNI_refl|].
+  destruct (copy (vs cs) pd t) as [fl|] eqn:C; [|apply goodNI_refl]. simpl.
+  eapply goodNI_upd; eauto. intros c Hc. exists v. split; [reflexivity|eapply H; eauto].
+Qed.
+
+(* ---------- operations without installation ---------- *)
+Ltac open_ex cs f t cs1 f1 opd e :=
+  pose proof (x_open_existing_keeps cs f t) as Hk;
+  destruct (x_open_existing cs f t) as [[[cs1 f1] opd] e]; simpl in Hk; subst cs1.
+
+Lemma good_x_do_write : forall cs f t v d off, goodNI cs (fst (fst (x_do_write cs f t v d off))).
+Proof.
+  intros. unfold x_do_write. eapply goodNI_trans; [apply (goodNI_bump cs t)|].
+  set (cs0 := with_vs cs (bump_stamp (vs cs) t)).
+  open_ex cs0 f t cs1 f1 opd e. destruct opd as [pd|]; [|apply goodNI_refl].
+  match goal with |- context [if ?b then x_write _ _ _ _ _ _ else _] => destruct b end.
+  - pose proof (good_x_write cs0 f1 pd t d off) as G1.
+    destruct (x_write cs0 f1 pd t d off) as [[cs2 f2] e2]. simpl in G1.
+    eapply goodNI_trans; [exact G1|]. apply good_x_close_if.
+  - apply good_x_close_if.
+Qed.
+
+Lemma good_x_read : forall cs f t v len off, goodNI cs (fst (fst (x_read cs f t v len off))).
+Proof.
+  intros. unfold x_read. open_ex cs f t cs1 f1 opd e. destruct opd as [pd|]; [|apply goodNI_refl].
+  match goal with |- context [x_close_if ?a ?b ?c ?d ?e] =>
+    pose proof (good_x_close_if a b c d e) as G; destruct (x_close_if a b c d e) as [[cs2 f2] e2] end.
+  exact G.
+Qed.
+
+Lemma good_x_stat : forall cs f t v, goodNI cs (fst (fst (x_stat cs f t v))).
+Proof.
+  intros. unfold x_stat. destruct (lookup (vs cs) t) as [[slot st]|]; [|apply goodNI_refl].
+  open_ex cs f t cs1 f1 opd e. destruct opd as [pd|]; [|apply goodNI_refl].
+  match goal with |- context [x_close_if ?a ?b ?c ?d ?e] =>
+    pose proof (good_x_close_if a b c d e) as G; destruct (x_close_if a b c d e) as [[cs2 f2] e2] end.
+  exact G.
+Qed.
+
+Lemma good_x_probe : forall cs f t, goodNI cs (fst (fst (x_probe cs f t))).
+Proof.
+  intros. unfold x_probe. open_ex cs f t cs1 f1 opd e. destruct opd as [pd|]; [|apply goodNI_refl].
+  match goal with |- context [x_close_if ?a ?b ?c ?d ?e] =>
+    pose proof (good_x_close_if a b c d e) as G; destruct (x_close_if a b c d e) as [[cs2 f2] e2] end.
+  exact G.
+Qed.
+
+Lemma good_x_set_version : forall cs f t v c, goodNI cs (fst (fst (x_set_version cs f t v c))).
+Proof.
+  intros. unfold x_set_version. destruct (v <=? 1)%Z; [apply goodNI_refl|].
+  open_ex cs f t cs1 f1 opd e.
+  match goal with |- context [if ?b then _ else _] => destruct b end.
+  - match goal with |- context [x_close_if ?a ?b ?c ?d ?e] =>
+      pose proof (good_x_close_if a b c d e) as G; destruct (x_close_if a b c d e) as [[cs2 f2] e2] end.
+    exact G.
+  - destruct opd as [pd|]; [|apply goodNI_refl].
+    assert (G2 : goodNI cs (fst (fst (match getver cs pd t with
+                                      | inl cur => if (v <=? cur)%Z then (cs, f1, E_OK)
+                                                   else if (cur + 1 =? v)%Z then x_setxattr cs f1 pd t v
+                                                        else (cs, f1, E_VersionMismatch)
+                                      | inr er => (cs, f1, er) end)))).
+    { unfold getver. destruct (copy (vs cs) pd t) as [fl|] eqn:C; [|apply goodNI_refl].
+      destruct (f_ver fl) as [cur|] eqn:V; [|apply goodNI_refl].
+      destruct (v <=? cur)%Z; [apply goodNI_refl|]. destruct (cur + 1 =? v)%Z eqn:E1; [|apply goodNI_refl].
+      apply good_x_setxattr. intros fl0 c0 C0 V0. rewrite C in C0. inversion C0; subst fl0.
+      rewrite V in V0. inversion V0; subst. apply Z.eqb_eq in E1. lia. }
+    destruct (match getver cs pd t with
+              | inl cur => _ | inr er => _ end) as [[cs2 f2] e2]. simpl in G2.
+    match goal with |- context [x_close_if ?a ?b ?c ?d ?e] =>
+      pose proof (good_x_close_if a b c d e) as G; destruct (x_close_if a b c d e) as [[cs3 f3] e3] end.
+    simpl in *. eapply goodNI_trans; eauto.
+Qed.
+
+Lemma good_x_check : forall ts cs f, goodNI cs (fst (fst (x_check cs f ts))).
+Proof.
+  induction ts as [|tv rest IH]; intros cs f; simpl; [apply goodNI_refl|].
+  pose proof (good_x_probe cs f (fst tv)) as G1. destruct (x_probe cs f (fst tv)) as [[cs1 f1] r].
+  pose proof (IH cs1 f1) as G2. destruct (x_check cs1 f1 rest) as [[cs2 f2] m]. simpl in *.
+  eapply goodNI_trans; eauto.
+Qed.
+
+Lemma good_x_maybe_gc : forall cs f tv, goodNI cs (fst (x_maybe_gc (cs, f) tv)).
+Proof.
+  intros. unfold x_maybe_gc.
+  pose proof (good_x_probe cs f (fst tv)) as G1. destruct (x_probe cs f (fst tv)) as [[cs1 f1] r]. simpl in G1.
+  destruct r as [cur|er]; [|exact G1]. destruct (snd tv <? cur)%Z; [exact G1|].
+  simpl. eapply goodNI_trans; [exact G1|apply goodNI_rm].
+Qed.
+
+Lemma good_x_gc : forall cs f old gone, goodNI cs (fst (x_gc cs f old gone)).
+Proof.
+  intros. unfold x_gc.
+  assert (H1 : forall l c f0, goodNI c (fst (fold_left x_maybe_gc l (c, f0)))).
+  { induction l as [|x l IH]; intros c f0; cbn [fold_left]; [apply goodNI_refl|].
+    pose proof (good_x_maybe_gc c f0 x) as G. destruct (x_maybe_gc (c, f0) x) as [c1 f1]. simpl in G.
+    eapply goodNI_trans; [exact G|apply IH]. }
+  pose proof (H1 old cs f) as G1. destruct (fold_left x_maybe_gc old (cs, f)) as [cs1 f1]. simpl in *.
+  eapply goodNI_trans; [exact G1|]. clear.
+  revert cs1. induction gone as [|x l IH]; intros c; cbn [fold_left]; [apply goodNI_refl|].
+  eapply goodNI_trans; [apply goodNI_rm|apply IH].
+Qed.
+
+(* ---------- installation of a new copy ---------- *)
+Definition good (cs cs' : cstore) : Prop := cinv cs -> cinv cs' /\ forall pd t, kstep cs cs' pd t.
+
+Lemma goodNI_good : forall a b, goodNI a b -> good a b.
+Proof. intros a b H I. destruct (H I) as [Ib K]. split; [exact Ib|]. intros. now apply kstepNI_kstep. Qed.
+
+Lemma wf_install : forall s t slot pd fl st,
+    wf s -> lookup s t = None -> get slot (slots s) = Some pd -> copy s pd t = None ->
+    wf (set_table (put_file s pd t fl) (put t (slot, st) (table (put_file s pd t fl)))).
+Proof.
+  intros s t slot pd fl st (I & A & B) L P G. repeat split; simpl; auto.
+  - intros t' i st' G'. rewrite get_put in G'. destruct (t' =? t) eqn:E.
+    + apply N.eqb_eq in E. subst t'. inversion G'; subst. exists pd. split; [exact P|].
+      rewrite copy_set_table, copy_put_file, !N.eqb_refl. discriminate.
+    + destruct (A t' i st' G') as (pd' & G'' & C). exists pd'. split; [exact G''|].
+      rewrite copy_set_table, copy_put_file, E, andb_false_r. exact C.
+  - intros i pd' t' G' C. rewrite copy_set_table, copy_put_file in C. rewrite get_put.
+    destruct (t' =? t) eqn:E2.
+    + apply N.eqb_eq in E2. subst t'. rewrite andb_true_r in C. destruct (pd' =? pd) eqn:E1.
+      * apply N.eqb_eq in E1. subst pd'. rewrite (I i slot pd G' P). eauto.
+      * destruct (B i pd' t G' C) as [st' Hs]. unfold lookup in L. congruence.
+    + rewrite andb_false_r in C. eapply B; eauto.
+Qed.
+
+Lemma good_install : forall cs t slot pd fl st,
+    lookup (vs cs) t = None -> get slot (slots (vs cs)) = Some pd -> copy (vs cs) pd t = None ->
+    good cs (with_vs cs (set_table (put_file (vs cs) pd t fl)
+                                   (put t (slot, st) (table (put_file (vs cs) pd t fl))))).
+Proof.
+  intros cs t slot pd fl st L P G [W [ND E]].
+  set (cs' := with_vs cs _).
+  assert (CP : forall p t0, copy (vs cs') p t0 = if (p =? pd) && (t0 =? t) then Some fl else copy (vs cs) p t0).
+  { intros. unfold cs'. simpl. rewrite copy_set_table. apply copy_put_file. }
+  assert (NF : d_find pd t (dirty cs) = None).
+  { destruct (d_find pd t (dirty cs)) as [img|] eqn:F; [|reflexivity].
+    apply d_find_some_in in F. destruct (E pd t img F) as (f0 & C0 & _). congruence. }
+  assert (DI' : DI cs').
+  { split; [exact ND|]. intros p t0 img Hin. destruct (E p t0 img Hin) as (f0 & C0 & L0).
+    destruct ((p =? pd) && (t0 =? t)) eqn:K.
+    - apply andb_true_iff in K. destruct K as [K1 K2]. apply N.eqb_eq in K1, K2. subst. congruence.
+    - exists f0. split; [rewrite CP, K; exact C0|exact L0]. }
+  split; [split; [now apply wf_install|exact DI']|].
+  intros p t0. destruct ((p =? pd) && (t0 =? t)) eqn:K.
+  - apply andb_true_iff in K. destruct K as [K1 K2]. apply N.eqb_eq in K1, K2. subst p t0.
+    right. right. split; [exact G|]. split; [unfold durable_copy; now rewrite NF|].
+    exists fl. split; [rewrite CP, !N.eqb_refl; reflexivity|].
+    intros g' Hg. destruct (durable_le_visible cs' pd t g' DI' Hg) as (f0 & C0 & L0).
+    rewrite CP, !N.eqb_refl in C0. inversion C0; subst. exact L0.
+  - assert (SV : copy (vs cs') p t0 = copy (vs cs) p t0) by (rewrite CP, K; reflexivity).
+    assert (SD : durable_copy cs' p t0 = durable_copy cs p t0)
+      by (unfold durable_copy; change (dirty cs') with (dirty cs); now rewrite SV).
+    destruct (goodNI_refl cs (conj W (conj ND E))) as [_ R]. specialize (R p t0).
+    apply kstepNI_kstep. destruct R as [[A B]|(f0 & f1 & A & B & Lx & Dm & Dl)].
+    + left. rewrite SV, SD. auto.
+    + right. exists f0, f1. rewrite SV, SD. auto.
+Qed.
+
+Lemma x_pick_ok : forall s f orc slot pd, x_pick s f orc = inl (slot, pd) -> get slot (slots s) = Some pd.
+Proof.
+  intros s f orc slot pd. unfold x_pick. destruct (pick s orc) as [[sl p]|e] eqn:P.
+  - destruct f; intros H; inversion H; subst; eapply pick_ok; eauto.
+  - destruct f; [|discriminate]. destruct (e =? E_BADORACLE)%Z; [|discriminate].
+    destruct (find _ (keys (slots s))) as [i|]; [|discriminate].
+    destruct (get i (slots s)) eqn:G; [|discriminate]. intros H; inversion H; subst. exact G.
+Qed.
+
+Lemma good_x_do_create : forall cs f t ver d off orc,
+    good cs (fst (fst (x_do_create cs f t ver d off orc))).
+Proof.
+  intros. unfold x_do_create.
+  destruct (lookup (vs cs) t) as [[? ?]|] eqn:L; [apply goodNI_good, goodNI_refl|].
+  destruct (x_pick (vs cs) f orc) as [[slot pd]|e] eqn:P; [|apply goodNI_good, goodNI_refl].
+  apply x_pick_ok in P. destruct (tick f) as [h1 f1].
+  destruct (copy (vs cs) pd t) as [fl|] eqn:C.
+  - simpl. apply goodNI_good. intros I. apply goodNI_prune; auto.
+    + apply wf_del_file_unserved; [exact L|apply I].
+    + intros p t0. rewrite copy_del_file. destruct ((p =? pd) && (t0 =? t)); auto.
+  - destruct h1; [apply goodNI_good, goodNI_refl|].
+    destruct (tick f1) as [h2 f2]. destruct h2; [apply goodNI_good, goodNI_refl|].
+    destruct (tick f2) as [h3 f3]. destruct h3; [apply goodNI_good, goodNI_refl|].
+    destruct (tick f3) as [h4 f4]. destruct h4; [apply goodNI_good, goodNI_refl|].
+    simpl. now apply good_install.
+Qed.
+
+(* Create: a new copy, or (tract already there) the write path *)
+Lemma good_x_create : forall cs f t d off orc, good cs (fst (fst (x_create cs f t d off orc))).
+Proof.
+  intros cs f t d off orc I. unfold x_create.
+  pose proof (good_x_do_create cs f t (initial_version t) d off orc I) as G1.
+  assert (NI : snd (x_do_create cs f t (initial_version t) d off orc) = E_AlreadyExists ->
+               cinv (fst (fst (x_do_create cs f t (initial_version t) d off orc))) /\
+               forall pd t0, kstepNI cs (fst (fst (x_do_create cs f t (initial_version t) d off orc))) pd t0).
+  { unfold x_do_create.
+    destruct (lookup (vs cs) t) as [[? ?]|] eqn:L; [intros _; now apply goodNI_refl|].
+    destruct (x_pick (vs cs) f orc) as [[slot pd]|e] eqn:P; [|intros _; now apply goodNI_refl].
+    destruct (tick f) as [h1 f1]. destruct (copy (vs cs) pd t) as [fl|] eqn:C.
+    - intros _. simpl. apply goodNI_prune; auto.
+      + apply wf_del_file_unserved; [exact L|apply I].
+      + intros p t0. rewrite copy_del_file. destruct ((p =? pd) && (t0 =? t)); auto.
+    - destruct h1; [intros _; now apply goodNI_refl|].
+      destruct (tick f1) as [h2 f2]. destruct h2; [intros _; now apply goodNI_refl|].
+      destruct (tick f2) as [h3 f3]. destruct h3; [intros _; now apply goodNI_refl|].
+      destruct (tick f3) as [h4 f4]. destruct h4; [intros _; now apply goodNI_refl|].
+      simpl. intros X. exfalso. revert X. ecodes. discriminate. }
+  destruct (x_do_create cs f t (initial_version t) d off orc) as [[cs1 f1] e]. simpl in *.
+  destruct (e =? E_AlreadyExists)%Z eqn:X; [|exact G1].
+  apply Z.eqb_eq in X. destruct (NI X) as [I1 K1].
+  pose proof (good_x_do_write cs1 f1 t (initial_version t) d off I1) as [I2 K2].
+  destruct (x_do_write cs1 f1 t (initial_version t) d off) as [[cs2 f2] e2]. simpl in *.
+  split; [exact I2|]. intros pd t0. apply kstepNI_kstep. eapply kstepNI_trans; eauto.
+Qed.
+
+(* PullTract: the invariant is kept (per-copy claims about a pull are in Store/Steps.v for the unfaulted
+   call; a faulted pull may replace the copy - that is the event excluded from the monotonicity claims) *)
+Lemma cinv_x_pull_pre : forall cs f t v, cinv cs -> cinv (fst (fst (x_pull_pre cs f t v))).
+Proof.
+  intros cs f t v I. unfold x_pull_pre.
+  destruct (lookup (vs cs) t) as [[slot st]|]; [|exact I].
+  destruct (disk_of (vs cs) slot) as [pd|]; [|exact I].
+  pose proof (x_open_keeps cs f pd t) as Hk. destruct (x_open cs f pd t false) as [[cs1 f1] e]. simpl in Hk. subst cs1.
+  match goal with |- context [x_close_if ?a ?b ?c ?d ?e] =>
+    pose proof (good_x_close_if a b c d e I) as [I2 _]; destruct (x_close_if a b c d e) as [[cs2 f2] e2] end.
+  simpl in I2.
+  match goal with |- context [if ?b then (cs2, f2, Some E_InvalidState) else _] => destruct b end; [exact I2|].
+  pose proof (goodNI_rm cs2 t I2) as [I3 _]. destruct (x_remove_tract cs2 t) as [cs3 e3]. exact I3.
+Qed.
+
+Lemma cinv_x_pull_once : forall cs f t r v orc, cinv cs -> cinv (fst (fst (x_pull_once cs f t r v orc))).
+Proof.
+  intros cs f t [re data] v orc I. unfold x_pull_once.
+  pose proof (cinv_x_pull_pre cs f t v I) as I1. destruct (x_pull_pre cs f t v) as [[cs1 f1] r]. simpl in I1.
+  destruct r as [e|]; [exact I1|].
+  destruct (negb (re =? E_OK)%Z && negb (re =? E_EOF)%Z); [exact I1|].
+  pose proof (good_x_do_create cs1 f1 t v data 0 orc I1) as [I2 _].
+  destruct (x_do_create cs1 f1 t v data 0 orc) as [[cs2 f2] ce]. simpl in I2.
+  destruct (ce =? E_OK)%Z; [exact I2|]. simpl. now apply goodNI_rm.
+Qed.
+
+Lemma cinv_x_pull_all : forall srcs cs f t v orc last,
+    cinv cs -> cinv (fst (fst (x_pull_all cs f t srcs v orc last))).
+Proof.
+  induction srcs as [|r rest IH]; intros cs f t v orc last I; simpl; [exact I|].
+  pose proof (cinv_x_pull_once cs f t r v orc I) as I1.
+  destruct (x_pull_once cs f t r v orc) as [[cs1 f1] e]. simpl in I1.
+  destruct (e =? E_OK)%Z; [exact I1|]. now apply IH.
+Qed.
+
+(* ---------- AddDisk ---------- *)
+Lemma filter_filter : forall (A : Type) (p q : A -> bool) l,
+    filter p (filter q l) = filter (fun x => q x && p x) l.
+Proof.
+  induction l as [|x l IH]; simpl; [reflexivity|]. destruct (q x); simpl; [destruct (p x)|]; now rewrite IH.
+Qed.
+
+Lemma fold_filters : forall (A B : Type) (g : B -> A -> bool) (h : list A -> B -> list A),
+    (forall d c, h d c = filter (g c) d) ->
+    forall (cl : list B) (d : list A), exists p, fold_left h cl d = filter p d.
+Proof.
+  intros A B g h Hh. induction cl as [|c cl IH]; intros d; simpl.
+  - exists (fun _ => true). now rewrite filter_true.
+  - destruct (IH (h d c)) as [p Hp]. rewrite Hp, Hh, filter_filter. eauto.
+Qed.
+
+Lemma goodNI_prune_f : forall cs s' p,
+    wf s' -> (forall pd t, copy s' pd t = copy (vs cs) pd t \/ copy s' pd t = None) ->
+    goodNI cs (prune (mkc s' (filter p (dirty cs)))).
+Proof.
+  intros cs s' p W HC [_ DIc]. unfold prune. simpl. rewrite filter_filter.
+  match goal with |- context [filter ?q (dirty cs)] =>
+    destruct (good_shrink cs (mkc s' (filter q (dirty cs))) q DIc) as [D K]; simpl; auto end.
+  - intros pd t img Hin. apply filter_In in Hin. destruct Hin as [_ Hc]. simpl in Hc.
+    apply andb_true_iff in Hc. destruct Hc as [_ Hc]. destruct (copy s' pd t); discriminate.
+  - split; [split; [exact W|exact D]|exact K].
+Qed.
+
+Lemma add_disk_copies : forall s pd p t,
+    wf s -> copy (fst (add_disk s pd)) p t = copy s p t \/ copy (fst (add_disk s pd)) p t = None.
+Proof.
+  intros s pd p t W. pose proof (copy_step_cases s (AddDisk pd) p t W) as CC. simpl in CC.
+  destruct (add_disk s pd) as [s' e]. simpl in *.
+  destruct (copy s' p t) as [f'|] eqn:C'; [|now right]. left.
+  destruct (cc_to_some _ _ _ _ _ _ CC) as
+      [E|[(f & v & d & off & _ & X & _)|[(f & d & off & orc & _ & X & _)
+       |[(f & v & c & _ & X & _)|[(d & off & orc & _ & X & _)
+       |(srcs & v & orc & re & data & X & _)]]]]]; try discriminate.
+  now symmetry.
+Qed.
+
+Lemma good_x_add_disk : forall cs pd, goodNI cs (fst (x_add_disk cs pd)).
+Proof.
+  intros cs pd I. unfold x_add_disk.
+  pose proof (wf_add_disk (vs cs) pd (proj1 I)) as W.
+  pose proof (fun p t => add_disk_copies (vs cs) pd p t (proj1 I)) as HC.
+  destruct (add_disk (vs cs) pd) as [s' e]. simpl in *.
+  destruct (e =? E_OK)%Z; [|now apply goodNI_refl]. simpl.
+  match goal with |- context [fold_left ?h ?cl (dirty cs)] =>
+    assert (HF : exists p, fold_left h cl (dirty cs) = filter p (dirty cs))
+  end.
+  { apply (fold_filters _ _ (fun (c : conflict) (e0 : N * N * option file) =>
+                               let '(t, _, _, pd1, pd2) := c in
+                               negb (key_eqb pd1 t e0) && negb (key_eqb pd2 t e0))).
+    intros d [[[[t i1] i2] pd1] pd2]. reflexivity. }
+  destruct HF as [p Hp]. rewrite Hp.
+  now apply goodNI_prune_f.
+Qed.
+
+(* ---------- power loss ---------- *)
+Lemma copy_restore_same : forall s pd t img, copy (restore s (pd, t, img)) pd t = img.
+Proof.
+  intros. unfold restore. simpl. destruct img as [fl|].
+  - rewrite copy_put_file, !N.eqb_refl. reflexivity.
+  - rewrite copy_del_file, !N.eqb_refl. reflexivity.
+Qed.
+
+Lemma fold_restore_other : forall l s pd t,
+    (forall e, In e l -> key_eqb pd t e = false) -> copy (fold_left restore l s) pd t = copy s pd t.
+Proof.
+  induction l as [|e l IH]; intros s pd t A; simpl; [reflexivity|].
+  rewrite IH by (intros; apply A; now right). apply copy_restore_other. apply A. now left.
+Qed.
+
+(* after a power loss the visible copy IS the durable copy *)
+Lemma power_loss_visible : forall cs pd t,
+    NoDup (dkeys (dirty cs)) -> copy (vs (power_loss cs)) pd t = durable_copy cs pd t.
+Proof.
+  intros cs pd t ND. unfold power_loss. simpl.
+  change (copy (restart (fold_left restore (dirty cs) (vs cs))) pd t)
+    with (copy (fold_left restore (dirty cs) (vs cs)) pd t).
+  unfold durable_copy. destruct (d_find pd t (dirty cs)) as [img|] eqn:F.
+  - apply d_find_some_in in F. revert F ND. generalize (vs cs).
+    induction (dirty cs) as [|e l IH]; intros s Hin ND; [destruct Hin|].
+    simpl. inversion ND as [|? ? Hn ND']; subst. destruct Hin as [->|Hin].
+    + rewrite fold_restore_other; [apply copy_restore_same|].
+      intros e He. destruct (key_eqb pd t e) eqn:K; [|reflexivity]. exfalso. apply key_eqb_true in K.
+      apply Hn. simpl. unfold dkeys. apply in_map_iff. exists e. auto.
+    + apply IH; assumption.
+  - apply fold_restore_other. now apply d_find_none_all.
+Qed.
+
+Lemma cinv_power_loss : forall cs, cinv (power_loss cs).
+Proof. intros. split; [apply wf_restart|]. split; [constructor|]. intros pd t img []. Qed.
+
+Lemma durable_power_loss : forall cs pd t,
+    DI cs -> durable_copy (power_loss cs) pd t = durable_copy cs pd t.
+Proof.
+  intros cs pd t [ND _]. unfold durable_copy at 1. simpl. now apply power_loss_visible.
+Qed.
+
+(* ---------- every transition of the double keeps the invariant ---------- *)
+Definition is_pull (o : op) : bool := match o with PullTract _ _ _ _ => true | _ => false end.
+
+Lemma good_restart : forall cs, goodNI cs (with_vs cs (restart (vs cs))).
+Proof.
+  intros cs I. pose proof (goodNI_same_copies cs (restart (vs cs)) (fun _ => true)) as G.
+  rewrite filter_true in G. apply G; auto. apply wf_restart.
+Qed.
+
+Lemma good_x_step : forall cs f o, is_pull o = false -> good cs (fst (x_step cs f o)).
+Proof.
+  intros cs f o NP. destruct o; try discriminate; simpl.
+  - pose proof (good_x_create cs f t data off orc) as G. now destruct (x_create cs f t data off orc) as [[? ?] ?].
+  - apply goodNI_good. pose proof (good_x_do_write cs f t v data off) as G.
+    now destruct (x_do_write cs f t v data off) as [[? ?] ?].
+  - apply goodNI_good. pose proof (good_x_read cs f t v len off) as G.
+    now destruct (x_read cs f t v len off) as [[? ?] [? ?]].
+  - apply goodNI_good. pose proof (good_x_stat cs f t v) as G.
+    now destruct (x_stat cs f t v) as [[? ?] [[? ?] ?]].
+  - apply goodNI_good. pose proof (good_x_set_version cs f t v cond) as G.
+    now destruct (x_set_version cs f t v cond) as [[? ?] [? ?]].
+  - apply goodNI_good. apply good_x_gc.
+  - apply goodNI_good. pose proof (good_x_check ts cs f) as G. now destruct (x_check cs f ts) as [[? ?] ?].
+  - apply goodNI_good. apply good_restart.
+  - apply goodNI_good. pose proof (good_x_add_disk cs pd) as G. now destruct (x_add_disk cs pd).
+  - apply goodNI_good. intros I.
+    pose proof (wf_remove_disk (vs cs) pd (proj1 I)) as W. pose proof (remove_disk_disks (vs cs) pd) as D.
+    destruct (remove_disk (vs cs) pd) as [s' e]. simpl in *.
+    pose proof (goodNI_same_copies cs s' (fun _ => true)) as G. rewrite filter_true in G.
+    apply G; auto. intros. unfold copy, files_of. now rewrite D.
+  - apply goodNI_good. intros I.
+    pose proof (wf_set_alloc (vs cs) pd stop (proj1 I)) as W.
+    assert (D : disks (fst (set_alloc (vs cs) pd stop)) = disks (vs cs))
+      by (unfold set_alloc; now destruct (slot_of (vs cs) pd)).
+    destruct (set_alloc (vs cs) pd stop) as [s' e]. simpl in *.
+    pose proof (goodNI_same_copies cs s' (fun _ => true)) as G. rewrite filter_true in G.
+    apply G; auto. intros. unfold copy, files_of. now rewrite D.
+Qed.
+
+Theorem cinv_xstep : forall cs x, cinv cs -> cinv (xstep cs x).
+Proof.
+  intros cs [f o|] I; simpl; [|apply cinv_power_loss].
+  destruct (is_pull o) eqn:P; [|now apply good_x_step].
+  destruct o; try discriminate. simpl.
+  pose proof (cinv_x_pull_all srcs cs f t v orc E_OK I) as G.
+  now destruct (x_pull_all cs f t srcs v orc E_OK) as [[? ?] ?].
+Qed.
+
+Theorem cinv_xrun : forall xs cs, cinv cs -> cinv (xrun cs xs).
+Proof. induction xs as [|x xs IH]; intros cs I; simpl; [exact I|]. apply IH. now apply cinv_xstep. Qed.
+
+(* ---------- monotonicity under faults ---------- *)
+(* the transitions after which the claims are made: every operation with every fault position, except
+   PullTract (it may delete and re-install the copy: a fresh history), and (durable claim only) power loss *)
+Definition xop_nopull (x : xop) : Prop := match x with XOp _ o => is_pull o = false | XPowerLoss => True end.
+
+(* visible version of a stored copy: never decreases by any (faulted) operation other than PullTract *)
+Theorem x_visible_monotone : forall cs f o pd t fl fl',
+    cinv cs -> is_pull o = false ->
+    copy (vs cs) pd t = Some fl -> copy (vs (fst (x_step cs f o))) pd t = Some fl' -> ver_le fl fl'.
+Proof.
+  intros cs f o pd t fl fl' I NP C C'. destruct (good_x_step cs f o NP I) as [_ K].
+  destruct (K pd t) as [[X _]|[(f0 & f1 & A & B & L & _)|(X & _)]]; try congruence.
+  rewrite C in A. rewrite C' in B. inversion A. inversion B. subst. exact L.
+Qed.
+
+(* durable version of a stored copy: never decreases by any faulted operation other than PullTract, nor by
+   a power loss; and it never exceeds the visible version *)
+Theorem x_durable_monotone : forall cs x pd t g g',
+    cinv cs -> xop_nopull x ->
+    durable_copy cs pd t = Some g -> durable_copy (xstep cs x) pd t = Some g' -> ver_le g g'.
+Proof.
+  intros cs [f o|] pd t g g' I NP Dg Dg'; simpl in *.
+  - destruct (good_x_step cs f o NP I) as [_ K].
+    destruct (K pd t) as [[_ X]|[(f0 & f1 & _ & _ & _ & Dm & _)|(_ & X & _)]]; try congruence.
+    destruct (Dm g Dg) as (g2 & H2 & L). rewrite Dg' in H2. inversion H2; subst. exact L.
+  - rewrite durable_power_loss in Dg' by apply I. rewrite Dg in Dg'. inversion Dg'. apply ver_le_refl.
+Qed.
+
+Fixpoint xstays (P : cstore -> Prop) (cs : cstore) (xs : list xop) : Prop :=
+  match xs with [] => True | x :: r => P (xstep cs x) /\ xstays P (xstep cs x) r end.
+
+(* along any history of faulted operations (no PullTract) and power losses during which the copy stays on
+   stable storage, its durable version never decreases *)
+Theorem durable_monotone_run : forall xs cs pd t g g',
+    cinv cs -> Forall xop_nopull xs ->
+    xstays (fun c => durable_copy c pd t <> None) cs xs ->
+    durable_copy cs pd t = Some g -> durable_copy (xrun cs xs) pd t = Some g' -> ver_le g g'.
+Proof.
+  induction xs as [|x xs IH]; intros cs pd t g g' I NP ST Dg Dg'; simpl in *.
+  - rewrite Dg in Dg'. inversion Dg'. apply ver_le_refl.
+  - inversion NP as [|? ? Hx Hr]; subst. destruct ST as [Hn ST].
+    destruct (durable_copy (xstep cs x) pd t) as [g1|] eqn:D1; [|congruence].
+    apply (ver_le_trans g g1 g'); [exact (x_durable_monotone cs x pd t g g1 I Hx Dg D1)|].
+    exact (IH (xstep cs x) pd t g1 g' (cinv_xstep cs x I) Hr ST D1 Dg').
+Qed.
+
+(* ---------- a PullTract of ANOTHER tract does not touch this tract's copies ---------- *)
+Definition other_same (t : tract) (cs cs' : cstore) : Prop :=
+  forall p t0, t0 <> t -> copy (vs cs') p t0 = copy (vs cs) p t0 /\ durable_copy cs' p t0 = durable_copy cs p t0.
+
+Lemma os_refl : forall t cs, other_same t cs cs.
+Proof. intros t cs p t0 _. auto. Qed.
+
+Lemma os_trans : forall t a b c, other_same t a b -> other_same t b c -> other_same t a c.
+Proof.
+  intros t a b c H1 H2 p t0 Hne. destruct (H1 p t0 Hne) as [A1 B1]. destruct (H2 p t0 Hne) as [A2 B2].
+  split; congruence.
+Qed.
+
+Lemma filter_filter_sub : forall (A : Type) (a b : A -> bool) l,
+    (forall x, In x l -> a x = true -> b x = true) -> filter a (filter b l) = filter a l.
+Proof.
+  induction l as [|x l IH]; intros H; simpl; [reflexivity|].
+  assert (IH' : filter a (filter b l) = filter a l) by (apply IH; intros; apply H; auto; now right).
+  destruct (b x) eqn:B; simpl.
+  - now rewrite IH'.
+  - destruct (a x) eqn:Ax; [|exact IH']. rewrite (H x (or_introl eq_refl) Ax) in B. discriminate.
+Qed.
+
+Lemma key_neq : forall p t0 pd t e, t0 <> t -> key_eqb p t0 e = true -> key_eqb pd t e = false.
+Proof.
+  intros p t0 pd t [[a b] i] Hne K. unfold key_eqb in *. simpl in *.
+  apply andb_true_iff in K. destruct K as [_ K]. apply N.eqb_eq in K. subst b.
+  apply andb_false_iff. right. now apply N.eqb_neq.
+Qed.
+
+Lemma os_sync : forall t cs pd, other_same t cs (d_clear cs pd t).
+Proof.
+  intros t cs pd p t0 Hne. split; [reflexivity|]. unfold durable_copy, d_clear, d_find. simpl.
+  rewrite filter_filter_sub; [reflexivity|].
+  intros x _ K. rewrite (key_neq p t0 pd t x Hne K). reflexivity.
+Qed.
+
+(* the visible state changes only copies of t, the dirty list is pruned: nothing else moves (needs DI) *)
+Lemma os_prune : forall t cs s',
+    DI cs -> (forall p t0, t0 <> t -> copy s' p t0 = copy (vs cs) p t0) ->
+    other_same t cs (prune (with_vs cs s')).
+Proof.
+  intros t cs s' [ND E] HC p t0 Hne. split; [simpl; now apply HC|].
+  unfold durable_copy, prune, d_find. simpl. rewrite HC by exact Hne.
+  rewrite filter_filter_sub; [reflexivity|].
+  intros [[a b] i] Hin K. apply key_eqb_true in K. simpl in K. inversion K; subst a b. simpl.
+  rewrite HC by exact Hne. destruct (E p t0 i Hin) as (f0 & C0 & _). now rewrite C0.
+Qed.
+
+Lemma os_rm : forall t cs, DI cs -> other_same t cs (fst (x_remove_tract cs t)).
+Proof.
+  intros t cs D. unfold x_remove_tract. pose proof (remove_tract_effect (vs cs) t) as Eff.
+  destruct (remove_tract (vs cs) t) as [s' e]. simpl in *. apply os_prune; [exact D|].
+  intros p t0 Hne. destruct Eff as [->|(pd0 & f & _ & _ & _ & _ & E)]; [reflexivity|].
+  rewrite E. apply N.eqb_neq in Hne. now rewrite Hne, andb_false_r.
+Qed.
+
+Lemma os_x_close_if : forall t cs f opd e, other_same t cs (fst (fst (x_close_if cs f opd t e))).
+Proof.
+  intros. unfold x_close_if. destruct opd as [pd|]; [|apply os_refl].
+  unfold x_close. destruct (tick f) as [h f']. destruct h; simpl; [apply os_refl|apply os_sync].
+Qed.
+
+Lemma os_x_do_create : forall t cs f ver d off orc,
+    DI cs -> other_same t cs (fst (fst (x_do_create cs f t ver d off orc))).
+Proof.
+  intros t cs f ver d off orc D. unfold x_do_create.
+  destruct (lookup (vs cs) t) as [[? ?]|]; [apply os_refl|].
+  destruct (x_pick (vs cs) f orc) as [[slot pd]|e]; [|apply os_refl].
+  destruct (tick f) as [h1 f1]. destruct (copy (vs cs) pd t) as [fl|].
+  - simpl. apply os_prune; [exact D|]. intros p t0 Hne. rewrite copy_del_file.
+    apply N.eqb_neq in Hne. now rewrite Hne, andb_false_r.
+  - destruct h1; [apply os_refl|]. destruct (tick f1) as [h2 f2]. destruct h2; [apply os_refl|].
+    destruct (tick f2) as [h3 f3]. destruct h3; [apply os_refl|].
+    destruct (tick f3) as [h4 f4]. destruct h4; [apply os_refl|]. simpl.
+    intros p t0 Hne. unfold durable_copy. simpl.
+    rewrite copy_set_table, copy_put_file. apply N.eqb_neq in Hne. rewrite Hne, andb_false_r. auto.
+Qed.
+
+Lemma os_x_pull_all : forall srcs t cs f v orc last,
+    cinv cs -> other_same t cs (fst (fst (x_pull_all cs f t srcs v orc last))).
+Proof.
+  induction srcs as [|[re data] rest IH]; intros t cs f v orc last I; simpl; [apply os_refl|].
+  assert (ONE : other_same t cs (fst (fst (x_pull_once cs f t (re, data) v orc)))).
+  { unfold x_pull_once.
+    assert (PRE : other_same t cs (fst (fst (x_pull_pre cs f t v)))).
+    { unfold x_pull_pre. destruct (lookup (vs cs) t) as [[slot st]|]; [|apply os_refl].
+      destruct (disk_of (vs cs) slot) as [pd|]; [|apply os_refl].
+      pose proof (x_open_keeps cs f pd t) as Hk. destruct (x_open cs f pd t false) as [[cs1 f1] e]. simpl in Hk. subst cs1.
+      match goal with |- context [x_close_if ?a ?b ?c ?d ?e] =>
+        pose proof (os_x_close_if t a b c e) as O1; pose proof (good_x_close_if a b c d e I) as [I2 _];
+        destruct (x_close_if a b c d e) as [[cs2 f2] e2] end.
+      simpl in *.
+      match goal with |- context [if ?b then (cs2, f2, Some E_InvalidState) else _] => destruct b end; [exact O1|].
+      pose proof (os_rm t cs2 (proj2 I2)) as O2. destruct (x_remove_tract cs2 t) as [cs3 e3]. simpl in *.
+      eapply os_trans; eauto. }
+    pose proof (cinv_x_pull_pre cs f t v I) as I1.
+    destruct (x_pull_pre cs f t v) as [[cs1 f1] r]. simpl in *.
+    destruct r as [e|]; [exact PRE|].
+    destruct (negb (re =? E_OK)%Z && negb (re =? E_EOF)%Z); [exact PRE|].
+    pose proof (os_x_do_create t cs1 f1 v data 0 orc (proj2 I1)) as O2.
+    pose proof (good_x_do_create cs1 f1 t v data 0 orc I1) as [I2 _].
+    destruct (x_do_create cs1 f1 t v data 0 orc) as [[cs2 f2] ce]. simpl in *.
+    destruct (ce =? E_OK)%Z; simpl; [eapply os_trans; eauto|].
+    eapply os_trans; [exact PRE|]. eapply os_trans; [exact O2|]. apply os_rm. apply I2. }
+  pose proof (cinv_x_pull_once cs f t (re, data) v orc I) as I1.
+  destruct (x_pull_once cs f t (re, data) v orc) as [[cs1 f1] e]. simpl in *.
+  destruct (e =? E_OK)%Z; [exact ONE|]. eapply os_trans; [exact ONE|]. now apply IH.
+Qed.
+
+(* the transitions allowed in a history about tract t: everything except a PullTract of t itself *)
+Definition xop_ok_for (t : tract) (x : xop) : Prop :=
+  match x with XOp _ (PullTract t' _ _ _) => t' <> t | _ => True end.
+
+Theorem x_durable_monotone_for : forall cs x pd t g g',
+    cinv cs -> xop_ok_for t x ->
+    durable_copy cs pd t = Some g -> durable_copy (xstep cs x) pd t = Some g' -> ver_le g g'.
+Proof.
+  intros cs x pd t g g' I OK Dg Dg'.
+  destruct x as [f o|]; [|exact (x_durable_monotone cs XPowerLoss pd t g g' I Logic.I Dg Dg')].
+  destruct (is_pull o) eqn:P; [|exact (x_durable_monotone cs (XOp f o) pd t g g' I P Dg Dg')].
+  destruct o; try discriminate. simpl in *.
+  pose proof (os_x_pull_all srcs t0 cs f v orc E_OK I pd t (fun H => OK (eq_sym H))) as [_ D].
+  destruct (x_pull_all cs f t0 srcs v orc E_OK) as [[cs1 f1] e]. simpl in *.
+  rewrite D, Dg in Dg'. inversion Dg'. apply ver_le_refl.
+Qed.
+
+Theorem durable_monotone_run_for : forall xs cs pd t g g',
+    cinv cs -> Forall (xop_ok_for t) xs ->
+    xstays (fun c => durable_copy c pd t <> None) cs xs ->
+    durable_copy cs pd t = Some g -> durable_copy (xrun cs xs) pd t = Some g' -> ver_le g g'.
+Proof.
+  induction xs as [|x xs IH]; intros cs pd t g g' I NP ST Dg Dg'; simpl in *.
+  - rewrite Dg in Dg'. inversion Dg'. apply ver_le_refl.
+  - inversion NP as [|? ? Hx Hr]; subst. destruct ST as [Hn ST].
+    destruct (durable_copy (xstep cs x) pd t) as [g1|] eqn:D1; [|congruence].
+    apply (ver_le_trans g g1 g'); [exact (x_durable_monotone_for cs x pd t g g1 I Hx Dg D1)|].
+    exact (IH (xstep cs x) pd t g1 g' (cinv_xstep cs x I) Hr ST D1 Dg').
+Qed.
